@@ -9,6 +9,28 @@ COMMON_TRUSTED = [
 
 HDR = "From Anytype Require Import Base FloatBits Value RunCommon %s.\nLocal Open Scope Z_scope.\n"
 
+
+HEAP_TRUSTED = [
+    "modelled, not verified: Go slices/maps as sequences and association lists (Heap.v); slice aliasing is modelled separately with backing "
+    "arrays (Slice.v) and proved to refine the sequence model for every growth policy",
+    "canonical hash of the reachable heap (polynomial hash mod 2^61-1 over a DFS token stream) computed independently in Go and in Coq; "
+    "a collision could hide a difference (probability ~2^-61 per comparison)",
+    "map iteration order is an explicit, checked parameter of Keys/Values/KeyOf (reported by the harness, validated by the model)",
+]
+def heap_conf(name, nq, nt, rule, extra_trusted=()):
+    return {
+        "n": {"quick": nq, "thorough": nt},
+        "per_shard": 60,
+        "run_header": "From Anytype Require Import Base FloatBits Value Heap RunCommon RunHeap.\nLocal Open Scope Z_scope.\n",
+        "run_check": "heap_check",
+        "run_show": "(fun c => heap_model (fst c))",
+        "mismatch_is_input": True,
+        "rule": rule,
+        "trusted": HEAP_TRUSTED + list(extra_trusted),
+        "assumptions": ["containers are acyclic (the generator never nests a container into something reachable from it)",
+                        "single goroutine"],
+    }
+
 PROPS = {
     "C18": {
         "n": {"quick": 4000, "thorough": 200000},
@@ -64,4 +86,26 @@ PROPS = {
                     "(C17_unique_*); sort.Float64s on NaN-free input orders by the sign-magnitude key"],
         "assumptions": ["float lists are NaN-free (as the property states)"],
     },
+    "C05": heap_conf("C05", 1200, 60000,
+        "programs of 8-35 operations over up to 8 live lists/objects nested acyclically; list-centric op mix (Add bursts, Insert/Replace/Delete/"
+        "SubList/Get with boundary arguments -n-1..n+1, Pop, Clear, Reverse, Sort inside C17's domain, Concat, typed getters, Contains/IndexOf, "
+        "Slice), growth histories leaving spare capacity; after EVERY step the outcome and the canonical hash of the whole reachable heap are compared; "
+        "non-trivial = at least 5 steps and 3 distinct operations; distinct by the full trace"),
+    "C06": heap_conf("C06", 1200, 60000,
+        "programs of 8-35 operations, object-centric op mix (Set with duplicate keys inside one call / odd count / non-string first key, Unset, Clear, "
+        "Merge, Pluck, Get, typed getters, TypeOf, KeyExists, Count, Empty, Keys, Values, Dict, Contains, KeyOf) over keys {'', a, b, c, a.b, #0, .x, "
+        "\"q\", e-acute, k}; outcome and canonical heap hash after every step; non-trivial = at least 5 steps and 3 distinct operations"),
+    "C08": heap_conf("C08", 1000, 50000,
+        "random DAG-shaped heaps (shared sub-containers), Clone of a random container, Equals, then 2-11 mutations (methods and tree-form writes) "
+        "at random nodes of either side, checking after each that the other side is unchanged; outcome and canonical heap hash after every step"),
+    "C09": heap_conf("C09", 1500, 80000,
+        "receiver list with a growth history (Add burst then Pop/Delete: spare capacity 0..many) -> one or two derivations (Concat, SubList, Merge, "
+        "Keys, Values) -> 2-9 mutations of any participant (receiver, argument, result, second result); outcome and canonical heap hash after every step"),
+    "C10": heap_conf("C10", 800, 40000,
+        "random trees (keys incl. a.b, .x, #0, ''), 6-15 (TypeOfTF, GetTF) pairs per program: resolvable paths, one-step corruptions (segment dropped, "
+        "sigil swapped, index out of range, key misspelt, trailing/doubled sigil, alternative index spellings 01 0x1 +1 1_ -0 20-digit) and random "
+        "strings over {. # a b 0 1 - x}"),
+    "C11": heap_conf("C11", 800, 40000,
+        "random trees, 6-15 SetTF/UnsetTF per program on well-formed paths (existing / partially existing / new; index < n, = n, > n; intermediates "
+        "scalar, nil, other container kind, right kind) with scalar and container values, plus 12% corrupted paths; whole-heap canonical hash after every step"),
 }
